@@ -509,7 +509,17 @@ fn hiding(set: &[usize], specs: &[NodeSpec]) -> Vec<u128> {
                 NodeSpec::Case(l, r) => {
                     let a = get!(*l);
                     let b = get!(*r);
-                    tyerr!(Hd::case(a, b))
+                    // a child given as a hidden node: through assertl / assertr at even positions, through case
+                    // (with the Hiding::hidden object) at odd ones; both must give the same root
+                    match (&specs[*l], &specs[*r]) {
+                        (NodeSpec::Hidden(h), rs) if i % 2 == 0 && !matches!(rs, NodeSpec::Hidden(_)) => {
+                            tyerr!(Hd::assertr(Cmr::from_byte_array(*h), b))
+                        }
+                        (ls, NodeSpec::Hidden(h)) if i % 2 == 0 && !matches!(ls, NodeSpec::Hidden(_)) => {
+                            tyerr!(Hd::assertl(a, Cmr::from_byte_array(*h)))
+                        }
+                        _ => tyerr!(Hd::case(a, b)),
+                    }
                 }
                 NodeSpec::Pair(l, r) => {
                     let a = get!(*l);
